@@ -68,7 +68,7 @@ def parse_spin(text, pml, names):
 
 
 def emit(ctx, docs):
-    lines = ["promela\t-\t%s" % hexs(charts.xml(d, "promela", NV)) for d in docs]
+    lines = ["promela\t-\t%s" % hexs(getattr(d, "pml_xml", None) or charts.xml(d, "promela", NV)) for d in docs]
     parts = list(chunks(lines, max(1, (len(lines) + 15) // 16)))
     def work(part):
         rc, h, err = ctx.harness_lines("emit", part, timeout=3600)
@@ -144,15 +144,16 @@ def suite(ctx, name, docs):
                 w2 = abs_interp(m2[0].split(" "), pseudo_ids(d2)); s2 = abs_interp(s2, pseudo_ids(d2))
                 if s and s[0].startswith("SPIN"): return bool(s2) and s2[0].startswith("SPIN") and "d_step_blocks" not in s2[0]
                 return w2 != s2 and "DIVERGE" not in w2 and not (s2 and s2[0].startswith(("SPIN", "EMIT")))
-            try: d2, _ = shrink.shrink(d, [], pred, max_rounds=25)
+            try: d2, _ = shrink.shrink(d, [], pred, max_rounds=25) if not getattr(d, "pml_xml", None) else (d, None)
             except Exception: d2 = d
             s2 = spin_traces(ctx, [d2])[0]
             _, m2 = E.run_batches(ctx, [E.case_line("large", d2, [], "promela", NV)], want_harness=False, nproc=1)
             w2 = abs_interp(m2[0].split(" "), pseudo_ids(d2)); s2 = abs_interp(s2, pseudo_ids(d2))
             k = E.first_diff(w2, s2)
             why = s2[0][:300] if s2 and s2[0].startswith(("SPIN", "EMIT")) else "at token %d: interpreter %s / Promela model %s" % (k, " ".join(w2[max(0, k - 3):k + 3]), " ".join(s2[max(0, k - 3):k + 3]))
-            ctx.violation("pml-%d" % len(ctx.violations), name, [E.case_line("large", d2, [], "promela", NV)],
-                          detail="the emitted Promela model and the interpreter differ %s\nchart: %s\ndocument: %s" % (why, charts.sexpr(d2), charts.xml(d2, "promela", NV)[:1500]))
+            px = getattr(d2, "pml_xml", None)
+            ctx.violation("pml-%d" % len(ctx.violations), name, [E.case_line("large", d2, [], "promela", NV) + ("\tPMLXML=" + hexs(px) if px else "")],
+                          detail="the emitted Promela model and the interpreter differ %s\nchart: %s\ndocument: %s" % (why, charts.sexpr(d2), (px or charts.xml(d2, "promela", NV))[:1500]))
     ctx.add_suite(name, **st)
     return st
 
@@ -167,6 +168,32 @@ def gen(rng, n):
     return docs
 
 
+def delay_cases(rng, n):
+    """delayed sends: the boot state sends the event history with distinct delays (200 ms apart, written as ms, s or unit-less) in a shuffled document order;
+    the events are due in the order of the history, so the expected run is that of the same chart with the sends in history
+    order and no delays (which is what the Lean model and the interpreter are given). The chart proper sends nothing."""
+    out = []
+    while len(out) < n:
+        g = charts.Gen(rng, max_states=rng.choice([3, 5, 8]), p_fail=0.0, dm="promela", nvars=NV, allow_in=False)
+        d0 = g.chart()
+        if c01.classify(d0) or "(send " in charts.sexpr(d0): continue
+        evs = charts.events_for(rng, g, rng.randint(3, 6))
+        d = E.selfdriven([(d0, evs)])[0]
+        xml = charts.xml(d, "promela", NV)
+        sends = re.findall(r'<send event="[^"]*" uvid="1\d\d"/>', xml)
+        if len(sends) != len(evs) or len(sends) < 3: continue
+        block = "".join(sends)
+        if block not in xml: continue
+        def css(ms): return rng.choice(["%dms" % ms, "%d" % ms, ("%gs" % (ms / 1000.0))])      # CSS2 times; unit-less = milliseconds
+        delayed = [x.replace(' uvid=', ' delay="%s" uvid=' % css(200 * (i + 1))) for i, x in enumerate(sends)]
+        order = list(range(len(sends)))
+        while order == sorted(order): rng.shuffle(order)
+        d.pml_xml = xml.replace(block, "".join(delayed[i] for i in order))
+        d.delay_order = order
+        out.append(d)
+    return out
+
+
 def run(ctx):
     ctx.setup(variants=("plain",))
     ctx.audit(THEOREMS, LEAN_FILES)
@@ -176,14 +203,15 @@ def run(ctx):
     s2 = suite(ctx, "promela-history-revisit", E.history_revisit_selfdriven(rng, 40 if quick else 1200))
     s3 = suite(ctx, "promela-parallel-done", E.selfdriven(E.parallel_done_cases(rng, 30 if quick else 1000)))
     s4 = suite(ctx, "promela-nested-if", [d for d, _ in E.nested_if_cases(rng, 40 if quick else 1500, NV)])
-    ctx.coverage["evaluations"] = s1["inputs"] + s2["inputs"] + s3["inputs"] + s4["inputs"]
+    s5 = suite(ctx, "promela-delays", delay_cases(rng, 40 if quick else 1200))
+    ctx.coverage["evaluations"] = s1["inputs"] + s2["inputs"] + s3["inputs"] + s4["inputs"] + s5["inputs"]
     ctx.coverage["distinct_nontrivial"] = s1["agree"]
     ctx.coverage["rule"] = ("random charts of 3-8 states with the promela datamodel (two integer variables; parallel, history, finals, internal/targetless/multi-target/eventless transitions; "
                             "raise/send to self/assign/if/log in every kind of block; conditions on variables and configuration), interpreted without outside events: the chart's own sends are the external events; "
                             "plus the history-revisit family (a compound state with shallow/deep history left and re-entered through the history 2-4 times with a different child active each time, the event history sent by a boot state) the parallel-done family (regions with or without history children all reach their finals) and executable content with <if>/<elseif>/<else> nested three deep; "
                             "non-trivial = models whose whole simulation agrees with the interpreter")
     ctx.assumptions += ["spin's simulator executes the model faithfully; one simulation run suffices because the emitted model has one process and no nondeterministic choice in the compared fragment",
-                        "nested machines, delayed sends and LTL verification (pan) are outside the compared fragment",
+                        "nested machines and LTL verification (pan) are outside the compared fragment; delayed sends are compared in the family promela-delays only (sends of one block with distinct delays: due order = order of the delays)",
                         "the model's event queues are bounded: documents whose run overflows them (spin: 'stmnt in d_step blocks') are counted as queue_bound, not compared",
                         "conditions on the configuration (In) are not generated: the back-end's _x.states support does not produce valid Promela",
                         "comparison by running, per document: no theorem about the emitted model"]
@@ -195,6 +223,8 @@ def replay(ctx, path):
         if "\t" not in line or line.startswith(("#", "property=")): continue
         f = line.rstrip("\n").split("\t")
         d = charts.from_sexpr(f[1])
+        px = [x for x in f if x.startswith("PMLXML=")]
+        if px: d.pml_xml = bytes.fromhex(px[0][7:]).decode()
         s = spin_traces(ctx, [d])[0]
         _, m = E.run_batches(ctx, [E.case_line("large", d, [], "promela", NV)], want_harness=False, nproc=1)
         print("chart:", f[1]); print("P :", " ".join(abs_interp(s, pseudo_ids(d)))[:2500]); print("I :", " ".join(abs_interp(m[0].split(" "), pseudo_ids(d)))[:2500])
